@@ -76,6 +76,7 @@ type Step struct {
 	Extra    interface{} `json:"-"`
 	EndBlock *abci.ResponseEndBlock `json:"-"`
 	TxRes    *abci.ResponseDeliverTx `json:"-"`
+	TxBytes  []byte `json:"-"`
 	Eth      *sim.EthResult `json:"-"`
 }
 
@@ -209,6 +210,7 @@ func (w *World) deliver(st *Step, bz []byte, err error) {
 		st.Err = "build: " + err.Error()
 		return
 	}
+	st.TxBytes = bz
 	n := len(w.C.Panics)
 	res, ok := w.C.DeliverTx(bz)
 	if !ok {
@@ -244,6 +246,7 @@ func (w *World) deliverPrecompile(st *Step, from *sim.Account, pc string, to com
 		st.Err = "build: " + err.Error()
 		return
 	}
+	st.TxBytes = bz
 	n := len(w.C.Panics)
 	res, ok := w.C.DeliverTx(bz)
 	if !ok {
